@@ -449,7 +449,7 @@ def list_exp(kind, items, m, start=0):
 
 def build_list(ast, m, dev=(), loose=0, depth=1):
     """ast = [kind, [item, ...]] or [kind, items, start]; item = [term(0/1), ctype, sub] -> (source, 'list' segment)
-    sub: None | nested list (NB, NT) | [list, list] (N2, N2B: two sibling lists inside one item)
+    ctype EM: item without body; sub: None | nested list (NB, NT) | [list, list] (N2, N2B: two sibling lists inside one item)
     start: \\setcounter{enum<depth>}{start} between \\begin and the first \\item
     loose: blank lines after \\begin, between items and before \\end (the usual way lists are typed)"""
     kind, items = ast[0], ast[1]
@@ -473,6 +473,11 @@ def build_list(ast, m, dev=(), loose=0, depth=1):
             a = m()
             s += ' %s\n' % a
             segs = (T(a),)
+        elif ctype == 'EM':
+            # an item without a body (empty bullet; description terms sharing the next body): \item or \item[t] followed
+            # only by a blank, a newline or a blank line.  It is still one item, with nothing in it
+            s += (' ', '\n', '\n\n')[getattr(m, 'esep', 1)]
+            segs = ()
         elif ctype == 'P2':
             a, b = m(), m()
             s += ' %s\n\n%s\n' % (a, b)
@@ -539,6 +544,7 @@ def build(case, dev=()):
     """case = {'fam': 'table'|'list', 'ast': ..., 'wrap': ...} -> (source, expected segments of the document)"""
     wrap = case.get('wrap', 'bare')
     m = Alloc(pos=True, ref=has_class(case))
+    m.esep = case.get('esep', 1)
     if DEPTH5 in dev and case['fam'] == 'list':
         m.sim = EnumSim(chained=has_class(case))   # only the standard classes chain enumii..iv to their parent     # plasTeX's base macro set already provides enumi..enumiv: item numbers exist in every document
     if case['fam'] == 'list':
